@@ -5,6 +5,12 @@ static int collatz(unsigned long n) { int k = 0; while (n != 1) { n = n & 1 ? 3 
 static int sw(long v) { switch (v) { case -1: return 1; case 0: return 2; case 1: case 2: return 3; case 0x100000000L: return 4; case -0x100000000L: return 5; default: return 6; case 100: ; } return 7; }
 static int swc(unsigned char c) { int r = 0; switch (c) { case 'a': r += 1; case 'b': r += 2; break; case 255: r = 9; break; case 0: r = 8; } return r; }
 static int swn(int a, int b) { int r = 0; switch (a) { case 1: switch (b) { case 1: r = 11; break; case 2: r = 12; break; default: r = 10; } r += 100; break; case 2: for (;;) { switch (b) { case 1: r = 21; break; default: r = 20; } break; } break; default: r = -1; } return r; }
+/* labels in orders that make the balanced tree of cases rotate both ways (single and double rotations on nodes that already have children) */
+static int swz1(int v) { switch (v) { case 50: return 1; case 20: return 2; case 80: return 3; case 10: return 4; case 30: return 5; case 25: return 6; default: return 0; } }
+static int swz2(int v) { switch (v) { case 50: return 1; case 80: return 2; case 20: return 3; case 90: return 4; case 70: return 5; case 75: return 6; case 72: return 7; case 60: return 8; case 65: return 9; case 62: return 10; default: return 0; } }
+static int swz3(unsigned long v) { switch (v) { case 8: return 1; case 4: return 2; case 12: return 3; case 2: return 4; case 6: return 5; case 10: return 6; case 14: return 7; case 5: return 8; case 7: return 9; case 9: return 10; case 11: return 11;
+	case 0xffffffffffffffff: return 12; case 0x8000000000000000: return 13; case 1: return 14; case 3: return 15; case 13: return 16; case 15: return 17; case 0: return 18; default: return 0; } }
+static int swz4(int v) { switch (v) { case 1: return 1; case 3: return 2; case 2: return 3; case 9: return 4; case 7: return 5; case 8: return 6; case 5: return 7; case 4: return 8; case 6: return 9; case -1: return 10; case -3: return 11; case -2: return 12; default: return 0; } }
 static int duff(int n) { int r = 0, k = (n + 3) / 4; if (n <= 0) return 0; switch (n % 4) { case 0: do { r++; case 3: r++; case 2: r++; case 1: r++; } while (--k > 0); } return r; }
 static int gt(int n) { int i = 0, s = 0; again: if (i >= n) goto done; s += i; ++i; if (s > 1000) goto done; goto again; done: return s; }
 static int nested(void) { int i, j, c = 0; for (i = 0; i < 10; ++i) { if (i == 7) break; for (j = 0; j < 10; ++j) { if (j == i) continue; if (j > 5) break; c += j; } if (i % 2) continue; c += 100; } return c; }
@@ -26,6 +32,7 @@ int main(void) {
 	{ int i = 0; while (i < 3) { int j = i * 2; { int i = j + 1; P(i); } ++i; } }
 	{ char c = 0; if (c) P(1); else P(2); float f = 0.0f; if (f) P(3); else P(4); double d = 0.5; if (d) P(5); long l = 1L << 32; if (l) P(6); else P(7); void *p = 0; if (p) P(8); else P(9); if (!p) P(10); unsigned char u = 0; while (++u) ; P(u); }
 	{ long l = 1L << 32; int n = 0; while (l) { l >>= 8; n++; } P(n); for (l = 1L << 33; l; l >>= 11) n++; P(n); do n++; while (l); P(n); P(l ? 1 : 2); P((1L << 32) && 1); P(0x100000000L || 0); P(!(1L << 32)); double z = 0.0; P(z ? 1 : 2); P(!z); P(z || 0); P(-z && 1); }
+	{ int k; for (k = -5; k < 100; ++k) { int a = swz1(k), b = swz2(k), c = swz3(k < 0 ? 0x8000000000000000 - k - 1 : k), d = swz4(k); if (a | b | c | d) printf("swz %d: %d %d %d %d\n", k, a, b, c, d); } P(swz3(-1UL)); }
 	{ /* the controlling expression of a switch is promoted: narrow results of casts, assignments, ++ and calls must be extended first */
 	  int v = 0x141, r = 0; signed char sc = 0; unsigned char uc = 255; short sh = 0; _Bool bb = 0;
 	  switch ((unsigned char)v) { case 0x41: r = 1; break; default: r = 100; } P(r);
